@@ -194,6 +194,15 @@ theorem answer_follows_current_file (disk : Bytes) (ops : List FileOp) (hdr : Op
   | nil => rfl
   | cons op ops ih => cases op <;> simpa [fileRun, fileStep, lastWritten] using ih _
 
+/-- **An explicit path mapping is consulted by exact key only.** A request whose cleaned path is not the
+key is resolved as if there were no mapping — so `resolved_bytes_under_root` applies to it, however the
+path is dotted below a key that looks like a directory — and a request that hits the key gets the
+configured file, whatever else its path spelt. -/
+theorem mapping_is_exact_key_only (root key value p : Bytes) :
+    (clean p ≠ key → resolveMapped root key value p = resolve root p) ∧
+    (clean p = key → resolveMapped root key value p = join2 (clean root) value) := by
+  constructor <;> intro h <;> simp [resolveMapped, h]
+
 /-! Non-vacuity / sanity on concrete inputs (tests, labelled as such). -/
 example : (fileStep (fileRun (strBytes "0123456789") [.get none, .write (strBytes "0123")]) (.get (some (strBytes "bytes=2-7")))).2
     = some (.single 2 3 4 (strBytes "23")) := by decide
@@ -208,5 +217,7 @@ example : respond [] (some (strBytes "bytes=0-")) = .unsat := by decide
 example : respond (strBytes "abc") (some (strBytes "bytes=x-2")) = .err := by decide
 example : clean (strBytes "/a/../../etc//passwd/.") = strBytes "/etc/passwd" := by decide
 example : resolve (strBytes "/srv/root/") (strBytes "/../../x") = strBytes "/srv/root/x" := by decide
+example : resolveMapped (strBytes "/srv/root") (strBytes "/assets/") (strBytes "files") (strBytes "/assets/../../../secret")
+    = strBytes "/srv/root/secret" := by decide
 
 end Martian.Props.C20
